@@ -272,6 +272,7 @@ package trzsz
 //@   ensures r0 != nil && r0 > old(alloc())
 //@ end
 //@ func trzszError.isTraceBack pure
+//@   ensures [C10,C11] r0 <==> (e.trace && !(e.errType == "fail" || e.errType == "EXIT"))
 //@ end
 
 //@ # popBuffer hands out, in stream order, first the unread rest of the current chunk, then
@@ -1685,7 +1686,17 @@ package trzsz
 //@ end
 
 //@ func trzszError.isStopAndDelete pure
+//@   nilable e
 //@   ensures [C10] r0 ==> e != nil
+//@   # the peer deletes only on a 'fail' line (never FAIL / EXIT) whose text is exactly the stop-and-delete message
+//@   ensures [C10] r0 <==> (e != nil && e.errType == "fail" && e.message == errStoppedAndDeleted.message)
+//@ end
+//@ # the kinds of error the clean-up and reporting decisions rest on
+//@ func trzszError.isRemoteExit pure
+//@   ensures [C10,C11] r0 <==> e.errType == "EXIT"
+//@ end
+//@ func trzszError.isRemoteFail pure
+//@   ensures [C10,C11] r0 <==> (e.errType == "fail" || e.errType == "FAIL")
 //@ end
 
 //@ # files are deleted on the client only if stop-and-delete was chosen (as read by this call), and when
